@@ -9,6 +9,12 @@ WIRING = [
     ("iri/src/_regex.rs", r"static IRI_REGEX:\s*LazyLock<Regex>\s*=\s*LazyLock::new\(\|\|\s*Regex::new\(IRI_REGEX_SRC\)\.unwrap\(\)\)"),
     ("iri/src/_regex.rs", r"static IRELATIVE_REF_REGEX:\s*LazyLock<Regex>\s*=\s*LazyLock::new\(\|\|\s*Regex::new\(IRELATIVE_REF_REGEX_SRC\)\.unwrap\(\)\)"),
     ("iri/src/_regex.rs", r"RegexSet::new\(\[IRI_REGEX_SRC,\s*IRELATIVE_REF_REGEX_SRC\]\)"),
+    ("iri/src/_regex.rs", r"pub fn is_valid_iri_ref\(txt: &str\) -> bool \{\s*IRI_REF_REGEX\.is_match\(txt\)\s*\}"),
+    ("iri/src/_regex.rs", r"pub fn is_absolute_iri_ref\(txt: &str\) -> bool \{\s*IRI_REGEX\.is_match\(txt\)\s*\}"),
+    ("iri/src/_regex.rs", r"pub fn is_relative_iri_ref\(txt: &str\) -> bool \{\s*IRELATIVE_REF_REGEX\.is_match\(txt\)\s*\}"),
+    ("iri/src/_wrapper.rs", r"pub fn new\(iri: T\) -> Result<Self, InvalidIri> \{\s*if is_absolute_iri_ref\(iri\.borrow\(\)\) \{\s*Ok\(Iri\(iri\)\)"),
+    ("iri/src/_wrapper.rs", r"pub fn new\(iri: T\) -> Result<Self, InvalidIri> \{\s*if is_valid_iri_ref\(iri\.borrow\(\)\) \{\s*Ok\(IriRef\(iri\)\)"),
+    ("api/src/ns/_namespace.rs", r"IriRef::new\(ns_term\.to_string\(\)\)\?;\s*Ok\(ns_term\)"),
 ]
 
 
@@ -31,6 +37,36 @@ def c09_eval(rep, strings):
     if rc != 0 or len(rows) != len(strings):
         raise RuntimeError("c09 replay failed rc=%s out=%s" % (rc, out[-300:]))
     return [(r[0] == "1", r[1] == "1", r[2] == "1", r[3], r[4] == "1", r[5] == "1") for r in rows]
+
+
+def namespace_pairs(repo_ref, n_each):
+    """Solver-generated inputs for Namespace::get: pairs (ns, suffix) with ns a valid IRI reference and suffix over
+    [A-Za-z0-9_-]+ such that ns++suffix is INVALID (n_each pairs) resp. VALID (n_each pairs)."""
+    import re as _re
+    import subprocess as _sp
+    from engine.rx import solver as _solver
+    from engine.rx.ast import cset, plus
+    sfx = plus(cset(("A", "Z"), ("a", "z"), ("0", "9"), "_-"))
+    ref = A.alt(rfc3987.IRI, rfc3987.irelative_ref)
+    al = A.Alphabet([ref, sfx])
+    out = []
+    for want_valid in (False, True):
+        blocked = []
+        for _ in range(n_each):
+            asserts = ['(= s (str.++ s1 s2))', '(str.in_re s %s)' % al.smt_sigma_star(), '(str.in_re s1 %s)' % al.smt(ref), '(>= (str.len s1) 3)',
+                       '(str.in_re s2 %s)' % al.smt(sfx), ('(str.in_re s %s)' if want_valid else '(not (str.in_re s %s))') % al.smt(ref)]
+            for b in blocked:
+                asserts.append('(not (= s1 "%s"))' % "".join(al.smt_char(k) for k in b))
+            script = _solver.script_header(30000) + "(declare-const s1 String)(declare-const s2 String)\n" + \
+                "\n".join("(assert %s)" % a for a in asserts) + "\n(check-sat)\n(get-value (s1 s2))\n"
+            p = _sp.run([_solver.Z3_PRIMARY, "-in"], input=script, stdout=_sp.PIPE, stderr=_sp.STDOUT, text=True, timeout=120)
+            m = _re.search(r'\(\(s1 "((?:[^"]|"")*)"\)\s*\(s2 "((?:[^"]|"")*)"\)\)', p.stdout)
+            if not p.stdout.startswith("sat") or not m:
+                break
+            k1, k2 = al.decode_model_string(m.group(1)), al.decode_model_string(m.group(2))
+            out.append((al.concretize(k1), al.concretize(k2), want_valid))
+            blocked.append(k1)
+    return out
 
 
 def judge(s, row):
@@ -111,6 +147,26 @@ def run(ctx):
             probs = judge(s, row)
             if probs:
                 corpus_viol.append((s, probs))
+        # Namespace::get on solver-generated (namespace, suffix) pairs + fixed pairs: Ok exactly when ns+suffix is a valid IRI reference
+        pairs = namespace_pairs(None, 4 if ctx.tier == "quick" else 12) + [
+            ("http://example.org:80", "a", False), ("http://[::1]", "x", False), ("http://example.org/", "a", True), ("http://example.org/ns#", "a-b_1", True),
+            ("//example.org:8080", "8o", False), ("a:%4", "1", False), ("http://example.org/a%", "41", False)]
+        rc, out = rep.run("dev", ["c09", "ns"], stdin="\n".join(rprop.esc(a + "\x1f" + b) for a, b, _ in pairs) + "\n", timeout=300)
+        ans = out.split()
+        ns_checked = 0
+        if rc != 0 or len(ans) != len(pairs):
+            ctx.inconc("Namespace::get replay failed: rc=%s %s" % (rc, out[-200:]))
+        else:
+            for (a, b, _), g in zip(pairs, ans):
+                if g == "n/a":
+                    continue
+                ns_checked += 1
+                want = A.matches(rfc3987.IRI, a + b) or A.matches(rfc3987.irelative_ref, a + b)
+                if (g == "1") != want:
+                    wp = ctx.write_witness("namespace-get-%d" % ns_checked, {"property": "C09", "kind": "namespace", "namespace": a, "suffix": b, "string": a + b,
+                                                                              "detail": "Namespace::get returned %s, RFC 3987 says the concatenation is %s" % ("Ok" if g == "1" else "Err", "valid" if want else "invalid")})
+                    ctx.violation(wp, "Namespace::new(%r).get(%r) is %s but the concatenation is %s per RFC 3987" % (a, b, "Ok" if g == "1" else "Err", "valid" if want else "invalid"))
+        ctx.coverage["namespace_get_pairs_replayed"] = ns_checked
         if wiring_bad:
             ctx.inconc("real validators disagree with the extracted patterns on %d corpus strings: the patterns are not the whole validator" % wiring_bad)
         ctx.coverage["translator_validation"] = {"strings": n, "disagreements": nbad, "validators_vs_patterns_disagreements": wiring_bad}
@@ -164,6 +220,14 @@ def replay(ctx, path):
     w = json.load(open(path))
     rep = rp.Replay(ctx.id, profiles=("dev",))
     try:
+        if w.get("kind") == "namespace":
+            rc, out = rep.run("dev", ["c09", "ns"], stdin=rprop.esc(w["namespace"] + "\x1f" + w["suffix"]) + "\n")
+            want = A.matches(rfc3987.IRI, w["string"]) or A.matches(rfc3987.irelative_ref, w["string"])
+            log("Namespace::get -> %s, RFC valid: %s" % (out.strip(), want))
+            if out.strip() in ("0", "1") and (out.strip() == "1") != want:
+                log("VIOLATION property=C09 replay=%s" % path)
+                return 1
+            return 0
         row = c09_eval(rep, [w["string"]])[0]
         probs = judge(w["string"], row)
         log("%r -> %s ; %s" % (w["string"], row, probs))
